@@ -114,6 +114,18 @@ def compare(kind, fam, x, eff, got):
             bad &= ~np.isnan(ref_b)  # reference undefined: not judged
             xb_ = np.broadcast_to(xa, got_b.shape)
             bad &= ~((xb_ != 0) & (np.abs(xb_) < 1e-290))  # (sub)normal-limit arguments lose precision in x itself
+            if fam in ("expweib", "weibull", "gengamma", "sc_gengamma"):
+                # ... and so does the power (x / scale)**shape when it is itself below the normal range (a quantile of
+                # 1e-211 with a shape of 1.5 gives 1e-319): not judged on either side
+                try:
+                    sc_ = 1.0 / np.asarray(eff["lambda_"], float) if fam == "gengamma" else np.asarray(eff.get("alpha", eff.get("scale", 1.0)), float)
+                    sh_ = np.asarray(eff.get("beta", eff.get("c", 1.0)), float)
+                    lo_ = np.asarray(eff.get("gamma", eff.get("loc", 0.0)), float)
+                    zz_ = np.broadcast_to((xa - lo_) / sc_, got_b.shape)
+                    with np.errstate(all="ignore"):
+                        bad &= ~((zz_ > 0) & (np.abs(zz_) ** np.broadcast_to(sh_, got_b.shape) < 1e-290))
+                except Exception:  # noqa: BLE001
+                    pass
     if np.any(bad):
         idx = int(np.argmax(bad.ravel()))
         return False, idx, ref_b
